@@ -231,7 +231,7 @@ fn enumerate(w: &mut World, prop: &str, seed: u64, extra: &mut BTreeMap<&'static
     let budget = crash_budget(prop);
     let reqs = w.sim.core.reqs.borrow().clone();
     let bs = 1u64 << w.cfg.bs_bits;
-    let tl = Timeline::new(&reqs, w.files[0], w.initial_file.clone(), bs);
+    let tl = Timeline::new(&reqs, w.files[0], w.initial_file.clone(), bs, w.cfg.early_visible);
     let mut points = tl.points();
     let mut rng = Rng::new(seed);
     *extra.entry("crash_points_total").or_insert(0) += points.len() as u64;
@@ -280,6 +280,7 @@ fn enumerate(w: &mut World, prop: &str, seed: u64, extra: &mut BTreeMap<&'static
     let seq_flush_done = w.seq_flush_done.clone();
     let mut kf05: Option<String> = None;
     let mut kf05_data: Option<String> = None;
+    let mut kf08: Option<String> = None;
     let mut kf06: Option<String> = None;
     'outer: for k in points {
         let cp = tl.at(k);
@@ -351,8 +352,77 @@ fn enumerate(w: &mut World, prop: &str, seed: u64, extra: &mut BTreeMap<&'static
                     .any(|(a, b)| k > *a && !seq_flush_done.iter().any(|f| *f >= *b && *f < k));
                 let _ = &conc_written;
                 let stored_of = |cl: u64| qspec::stored_refcount(&img, wk, cl);
-                for (pass, name) in [(0, "kf05"), (1, "kf06")] {
-                    if pass == 1 && !in_par {
+                // KF06(b), also inside one multi-cluster call: a table write
+                // that was issued while the write of the refcount block it
+                // depends on was still in flight (another sub-request of the
+                // same call, or another task, had cleared the slice's dirty
+                // flag but not finished writing it).  `racing(X)`: the
+                // refcount of host cluster X lives in a refblock cluster R; an
+                // unpersisted volatile write W1 into R exists, and some write
+                // W2 into an L1/L2 cluster that is present in this image was
+                // submitted after W1 was submitted and before W1 completed.
+                let rbe = wk.hdr.rb_entries();
+                let table_clusters: BTreeSet<u64> = wk
+                    .owners
+                    .iter()
+                    .filter(|(_, o)| {
+                        o.iter()
+                            .any(|x| matches!(x, qspec::Owner::L2(_) | qspec::Owner::L1))
+                    })
+                    .map(|(c, _)| *c)
+                    .collect();
+                let racing = |x: u64| -> bool {
+                    let rti = (x / rbe) as usize;
+                    let Some(e) = wk.reftable.get(rti).copied() else {
+                        return false;
+                    };
+                    if e == 0 {
+                        // the refblock is not even reachable: its reftable
+                        // entry would be the racing write
+                        return false;
+                    }
+                    let rcl = e / cs;
+                    // the refcount block write was not even submitted yet when
+                    // the table write of the same API call went out: another
+                    // sub-request had claimed the dirty slice (cleared its
+                    // flag) and was still busy zeroing / locking
+                    let late = tl.reqs.iter().any(|w1| {
+                        w1.kind == crate::sim::ReqKind::Write
+                            && w1.len > 0
+                            && w1.off / cs <= rcl
+                            && (w1.off + w1.len as u64 - 1) / cs >= rcl
+                            && tl.reqs.iter().any(|w2| {
+                                w2.kind == crate::sim::ReqKind::Write
+                                    && w2.api_op == w1.api_op
+                                    && w2.submit_seq < w1.submit_seq
+                                    && w2.submit_seq <= k
+                                    && w1.submit_seq > k
+                                    && w2.len > 0
+                                    && table_clusters.contains(&(w2.off / cs))
+                            })
+                    });
+                    if late {
+                        return true;
+                    }
+                    cp.vols.iter().zip(&c.sel).any(|(v1, sel1)| {
+                        let w1 = tl.reqs[v1.req];
+                        let in_r = w1.len > 0 && w1.off / cs <= rcl && (w1.off + w1.len as u64 - 1) / cs >= rcl;
+                        if !in_r || sel1.iter().all(|b| *b) {
+                            return false;
+                        }
+                        let w1_done = w1.complete_seq.unwrap_or(u64::MAX);
+                        tl.reqs.iter().any(|w2| {
+                            w2.kind == crate::sim::ReqKind::Write
+                                && w2.submit_seq > w1.submit_seq
+                                && w2.submit_seq < w1_done
+                                && w2.submit_seq <= k
+                                && w2.len > 0
+                                && table_clusters.contains(&(w2.off / cs))
+                        })
+                    })
+                };
+                for (pass, name) in [(0, "kf05"), (1, "kf06"), (2, "kf06")] {
+                    if pass == 2 && !in_par {
                         break;
                     }
                     let mut w2 = qspec::Walk {
@@ -364,7 +434,11 @@ fn enumerate(w: &mut World, prop: &str, seed: u64, extra: &mut BTreeMap<&'static
                         reftable: wk.reftable.clone(),
                     };
                     for (cl, o) in w2.owners.iter_mut() {
-                        let under = pass == 1 && (o.len() as u64) > stored_of(*cl);
+                        let under = match pass {
+                            1 => (o.len() as u64) > stored_of(*cl) && racing(*cl),
+                            2 => (o.len() as u64) > stored_of(*cl),
+                            _ => false,
+                        };
                         o.retain(|x| match x {
                             qspec::Owner::Data(g) | qspec::Owner::ZeroPrealloc(g) => {
                                 !(discarded(*g) || under)
@@ -376,6 +450,14 @@ fn enumerate(w: &mut World, prop: &str, seed: u64, extra: &mut BTreeMap<&'static
                     w2.owners.retain(|_, o| !o.is_empty());
                     let mut v2 = qspec::Verdict::default();
                     qspec::check_walk(&img, &w2, false, &mut v2);
+                    if std::env::var("QSIM_DEBUG_KF").is_ok() {
+                        eprintln!(
+                            "k={k} choice={} pass={pass} in_par={in_par} orig={:?} after={:?}",
+                            c.name,
+                            v.first_problem(true),
+                            v2.first_problem(true)
+                        );
+                    }
                     if v2.first_problem(true).is_none() {
                         let d = format!(
                             "{}\n  checker: {}",
@@ -457,6 +539,21 @@ fn enumerate(w: &mut World, prop: &str, seed: u64, extra: &mut BTreeMap<&'static
                                         *g >= s.off.div_ceil(cs) && *g < end / cs
                                     }
                                 });
+                                // KF08: a cluster that gets its first own
+                                // allocation from a write issued after the
+                                // sync is mapped before it is zeroed /
+                                // written; if that mapping reaches the disk
+                                // first, the whole cluster reads stale host
+                                // bytes after the crash
+                                let fresh = sp.model.class_of(*g) != crate::model::CClass::Data
+                                    && spans.iter().any(|s| {
+                                        s.base.is_some()
+                                            && s.len > 0
+                                            && s.start_seq >= sp.seq
+                                            && s.start_seq <= k
+                                            && s.off / cs <= *g
+                                            && (s.off + s.len - 1) / cs >= *g
+                                    });
                                 for s in 0..len / 512 {
                                     let sec = off / 512 + s as u64;
                                     let bytes = &buf[s * 512..(s + 1) * 512];
@@ -465,6 +562,18 @@ fn enumerate(w: &mut World, prop: &str, seed: u64, extra: &mut BTreeMap<&'static
                                         Some(id) => allowed.contains(&id),
                                         None => false,
                                     };
+                                    if !ok && fresh && !disc {
+                                        problems.push((
+                                            "kf08".into(),
+                                            format!(
+                                                "guest sector {sec} (cluster {g}, first allocated by a write issued after the sync at event {}) reads {} after the crash; allowed: {:x?}",
+                                                sp.seq,
+                                                content::describe(bytes),
+                                                allowed
+                                            ),
+                                        ));
+                                        break;
+                                    }
                                     if !ok && disc {
                                         problems.push((
                                             "kf05".into(),
@@ -479,7 +588,18 @@ fn enumerate(w: &mut World, prop: &str, seed: u64, extra: &mut BTreeMap<&'static
                                     }
                                     if !ok {
                                         problems.push((
-                                            format!("synced-data-lost/{}", content::describe(bytes).split('=').next().unwrap_or("x")),
+                                            format!("synced-data-lost/{}", {
+                                                let d = content::describe(bytes);
+                                                if d == "zeros" {
+                                                    "zeros"
+                                                } else if d.starts_with("id=") {
+                                                    "wrong-data"
+                                                } else if d.starts_with("POISON") {
+                                                    "poison"
+                                                } else {
+                                                    "garbage"
+                                                }
+                                            }),
                                             format!(
                                                 "guest sector {sec} (cluster {g}) reads {} after the crash; allowed: {:x?} (synced at event {})",
                                                 content::describe(bytes),
@@ -513,6 +633,12 @@ fn enumerate(w: &mut World, prop: &str, seed: u64, extra: &mut BTreeMap<&'static
                         *extra.entry("kf05_data_images").or_insert(0) += 1;
                         kf05_data.get_or_insert(format!("{}\n  {d}", describe_point(&tl, &cp, c)));
                     }
+                    if let Some(i) = problems.iter().position(|(s, _)| s == "kf08") {
+                        let (_, d) = problems[i].clone();
+                        problems.retain(|(s, _)| s != "kf08");
+                        *extra.entry("kf08_data_images").or_insert(0) += 1;
+                        kf08.get_or_insert(format!("{}\n  {d}", describe_point(&tl, &cp, c)));
+                    }
                     if let Some((sig, d)) = problems.into_iter().next() {
                         let props: &[&'static str] = if sig.starts_with("synced") {
                             &["C05", "C12"]
@@ -542,6 +668,13 @@ fn enumerate(w: &mut World, prop: &str, seed: u64, extra: &mut BTreeMap<&'static
         w.viol_nonfatal(
             &["C05", "C12"],
             "crash-image/discarded-cluster-reads-foreign-data",
+            d,
+        );
+    }
+    if let Some(d) = kf08 {
+        w.viol_nonfatal(
+            &["C05", "C12"],
+            "crash-image/new-cluster-mapped-before-its-data",
             d,
         );
     }
